@@ -122,6 +122,85 @@ Proof.
   rewrite RInt_const. unfold scal; simpl; unfold mult; simpl. field.
 Qed.
 
+(* ---- the iterated integral exists: the integrand is exp of a quadratic form in (1+z1, 1+z2); the inner integral is a
+        differentiable (hence continuous) function of z1 by differentiation under the integral sign *)
+Definition gq (A B z1 z2 : R) : R := exp (A * ((1 + z1) * (1 + z1)) + B * (1 + z1) * (1 + z2) + A * ((1 + z2) * (1 + z2))).
+
+Lemma gq_derive A B v u : is_derive (fun z => gq A B z v) u (gq A B u v * (2 * A * (1 + u) + B * (1 + v))).
+Proof. unfold gq. auto_derive; [exact I|]. ring. Qed.
+
+Lemma gq_continuous_2 A B z1 z2 : continuous (fun t => gq A B z1 t) z2.
+Proof.
+  apply (ex_derive_continuous (fun t => gq A B z1 t)). unfold gq. auto_derive. exact I.
+Qed.
+
+Lemma c2d_poly_E A B x y : continuity_2d_pt (fun u v => A * ((1 + u) * (1 + u)) + B * (1 + u) * (1 + v) + A * ((1 + v) * (1 + v))) x y.
+Proof.
+  assert (Hu : continuity_2d_pt (fun u _ : R => 1 + u) x y)
+    by (apply continuity_2d_pt_plus; [apply continuity_2d_pt_const|apply continuity_2d_pt_id1]).
+  assert (Hv : continuity_2d_pt (fun _ v : R => 1 + v) x y)
+    by (apply continuity_2d_pt_plus; [apply continuity_2d_pt_const|apply continuity_2d_pt_id2]).
+  apply continuity_2d_pt_plus; [apply continuity_2d_pt_plus|].
+  - apply continuity_2d_pt_mult; [apply continuity_2d_pt_const|].
+    apply continuity_2d_pt_mult; assumption.
+  - apply continuity_2d_pt_mult; [|assumption]. apply continuity_2d_pt_mult; [apply continuity_2d_pt_const|assumption].
+  - apply continuity_2d_pt_mult; [apply continuity_2d_pt_const|].
+    apply continuity_2d_pt_mult; assumption.
+Qed.
+
+Lemma gq_c2d A B x y : continuity_2d_pt (gq A B) x y.
+Proof.
+  unfold gq. apply (continuity_1d_2d_pt_comp exp).
+  - apply derivable_continuous_pt, derivable_pt_exp.
+  - apply c2d_poly_E.
+Qed.
+
+Lemma gq_inner_continuous A B z1 : continuous (fun u => RInt (fun t => gq A B u t) (-1) 1) z1.
+Proof.
+  apply (ex_derive_continuous (fun u => RInt (fun t => gq A B u t) (-1) 1)).
+  eexists. apply (is_derive_RInt_param (fun u t => gq A B u t)).
+  - apply filter_forall. intros u t _. eexists. apply gq_derive.
+  - intros t _.
+    apply (continuity_2d_pt_ext (fun u v => gq A B u v * (2 * A * (1 + u) + B * (1 + v)))).
+    + intros u v. symmetry. apply is_derive_unique, gq_derive.
+    + apply continuity_2d_pt_mult; [apply gq_c2d|].
+      apply continuity_2d_pt_plus.
+      * apply continuity_2d_pt_mult; [apply continuity_2d_pt_const|].
+        apply continuity_2d_pt_plus; [apply continuity_2d_pt_const|apply continuity_2d_pt_id1].
+      * apply continuity_2d_pt_mult; [apply continuity_2d_pt_const|].
+        apply continuity_2d_pt_plus; [apply continuity_2d_pt_const|apply continuity_2d_pt_id2].
+  - apply filter_forall. intros u. apply (ex_RInt_continuous (V := R_CompleteNormedModule)). intros; apply gq_continuous_2.
+Qed.
+
+Lemma R_integrand_gq Wp Ws L tanrho z1 z2 : 0 < Wp -> 0 < Ws ->
+  R_integrand Wp Ws L tanrho z1 z2 =
+  gq ((/ 2 * L * tanrho) ^ 2 * (Ws ^ 2 / (2 * Wp ^ 2 * (Wp ^ 2 + Ws ^ 2)) - / Wp ^ 2))
+     (2 * (/ 2 * L * tanrho) ^ 2 * (Ws ^ 2 / (2 * Wp ^ 2 * (Wp ^ 2 + Ws ^ 2)))) z1 z2.
+Proof.
+  intros Hp Hs. unfold R_integrand, gq, R_exponent, walk_d. f_equal.
+  assert (0 < Wp ^ 2) by (apply pow_lt; assumption). assert (0 < Ws ^ 2) by (apply pow_lt; assumption).
+  field. split; lra.
+Qed.
+
+Lemma R_inner_ex Wp Ws L tanrho z1 : 0 < Wp -> 0 < Ws -> ex_RInt (fun z2 => R_integrand Wp Ws L tanrho z1 z2) (-1) 1.
+Proof.
+  intros Hp Hs. eapply ex_RInt_ext; [intros z2 _; symmetry; apply R_integrand_gq; assumption|].
+  apply (ex_RInt_continuous (V := R_CompleteNormedModule)). intros; apply gq_continuous_2.
+Qed.
+
+Lemma R_inner_continuous Wp Ws L tanrho z1 : 0 < Wp -> 0 < Ws ->
+  continuous (fun u => RInt (fun z2 => R_integrand Wp Ws L tanrho u z2) (-1) 1) z1.
+Proof.
+  intros Hp Hs. eapply continuous_ext; [|apply gq_inner_continuous].
+  intros u. cbv beta. apply RInt_ext. intros z2 _. symmetry. apply R_integrand_gq; assumption.
+Qed.
+
+Lemma R_outer_ex Wp Ws L tanrho : 0 < Wp -> 0 < Ws ->
+  ex_RInt (fun z1 => RInt (fun z2 => R_integrand Wp Ws L tanrho z1 z2) (-1) 1) (-1) 1.
+Proof.
+  intros Hp Hs. apply (ex_RInt_continuous (V := R_CompleteNormedModule)). intros; apply R_inner_continuous; assumption.
+Qed.
+
 (* R in (0,1] given that the iterated integral exists (the inner integral is continuous in z1; this is not proved here) *)
 Lemma R_walkoff_range_partial Wp Ws L tanrho :
   0 < Wp -> 0 < Ws ->
@@ -141,4 +220,15 @@ Proof.
     { replace 4 with (RInt (fun _ => 2) (-1) 1) by (rewrite RInt_const; unfold scal; simpl; unfold mult; simpl; ring).
       apply RInt_le; [lra|exact Hex|apply ex_RInt_const|]. intros z1 _. apply Hinner. }
     lra.
+Qed.
+
+Lemma R_walkoff_range Wp Ws L tanrho : 0 < Wp -> 0 < Ws -> 0 < R_walkoff Wp Ws L tanrho <= 1.
+Proof.
+  intros Hp Hs. split.
+  - unfold R_walkoff. apply Rmult_lt_0_compat; [lra|].
+    apply RInt_gt_0; [lra| |intros; apply R_inner_continuous; assumption].
+    intros z1 _. apply RInt_gt_0; [lra| |].
+    + intros z2 _. apply R_integrand_range; assumption.
+    + intros z2 _. eapply continuous_ext; [intros t; symmetry; apply R_integrand_gq; assumption|]. apply gq_continuous_2.
+  - apply R_walkoff_range_partial; try assumption; [apply R_outer_ex|intros; apply R_inner_ex]; assumption.
 Qed.
